@@ -182,7 +182,7 @@ class C02(Spec):
     def cases(self, rng, tier, boost=1):
         quick = tier == 'quick'
         cs = []
-        reps = (3 if quick else 16) * boost
+        reps = (3 if quick else 24) * boost
         sizes_q = [3, 8, 20, 45, 90, 170]
         # (a) Int keys, collision classes
         for rep in range(reps):
@@ -264,12 +264,17 @@ class C02(Spec):
             g.emit(f'check {t}'); g.churn(t, pool, target, target // 3, w_iter=0.002); g.emit(f'check {t}')
             cs.append(Case(f'large{rep}_{target}', g.lines))
         if not quick:
-            for rep in range(2 * boost):
-                g = Gen(rng); t = 0; target = 100000 if rep == 0 else 30000
-                pool = int_pool(rng, int(target * 1.2), 2417, [0, 1, 2, LCM - 1])
+            for rep in range(3 * boost):
+                g = Gen(rng); t = 0; target = [100000, 30000, 50000][rep % 3]
+                if rep % 3 == 2:
+                    pool = probe_pool(rng, int(target * 1.2), 'end', 2417); g.new(t, 'P')
+                else:
+                    pool = int_pool(rng, int(target * 1.2), 2417, [0, 1, 2, LCM - 1])
                 for k in pool[:target]: g.set(t, k)
-                g.emit(f'check {t}'); g.churn(t, pool, 30000, target, w_iter=0.0); g.emit(f'check {t}')
+                g.emit(f'check {t}'); g.churn(t, pool, 60000, target, w_iter=0.0); g.emit(f'check {t}')
                 g.copy(1, t); g.emit('check 1')
+                for k in list(g.bound[t].keys())[: (target * 9) // 10]: g.rem(t, k)       # shrink back through the primes
+                g.emit(f'check {t}'); g.churn(t, pool, 5000, target // 20, w_iter=0.0); g.emit(f'check {t}')
                 cs.append(Case(f'huge{rep}', g.lines))
         # (f) Table_Ideal_Size
         lim = 200000 if quick else 10000000
